@@ -532,7 +532,8 @@ func runC10(c *Ctx) {
 }
 
 // extracted model vs implementation on exact decimals of at most 15 significant digits without a digit 5
-// (no rounding ties: on ties the binary value decides, which the model, working on the decimal, does not see)
+// (no decimal rounding ties: there the binary value decides, which the model, working on the decimal, does not see),
+// plus dyadic fractions (k/2, k/4, k/8), which are exact in both bases: a tie there is a true tie
 func (c *Ctx) c10Model(n int) {
 	var reqs, impl []string
 	var descs []interface{}
@@ -564,6 +565,22 @@ func (c *Ctx) c10Model(n int) {
 		}
 		if m > 0 && digits[len(digits)-1] == '0' {
 			digits = digits[:len(digits)-1] + "7"
+		}
+		if c.Rng.Intn(5) == 0 {
+			// a dyadic fraction: exact in binary64 and in decimal, so a tie at the last shown place is a true tie
+			// (rounded away from zero by numberHandler's math.Round, as Excel does)
+			fr := []string{"5", "25", "75", "125", "375", "625", "875"}[c.Rng.Intn(7)]
+			ip := c.Rng.Intn(100000)
+			if c.Rng.Intn(3) == 0 {
+				ip = c.Rng.Intn(10)
+			}
+			frn, _ := strconv.Atoi(fr)
+			p10 := 1
+			for range fr {
+				p10 *= 10
+			}
+			digits, m = strconv.Itoa(ip*p10+frn), len(fr)
+			c.R.Dist["model dyadic tie candidates"]++
 		}
 		sign := 1
 		switch c.Rng.Intn(8) {
